@@ -82,6 +82,17 @@ type Event struct {
 	Node  uint64
 }
 
+// MembershipCall is one RequestToJoin / RequestToLeave as seen by the proxy
+// (client boundary of the membership protocol).
+type MembershipCall struct {
+	Method  string
+	Target  uint64
+	Subject uint64 // joiner / leaver
+	H0, H1  int    // length of the target's lifecycle history before the call and after it returned
+	History []chord.State
+	Err     error
+}
+
 type Member struct {
 	ID      uint64
 	Node    *rchord.LocalNode
@@ -116,6 +127,9 @@ type Lab struct {
 	Calls    sync.Map // method -> *atomic.Int64
 
 	storeLog storeLog
+
+	mcMu   sync.Mutex
+	MCalls []MembershipCall
 }
 
 var sqliteInit sync.Once
@@ -591,6 +605,13 @@ func (p *netVNode) call(method string, args ...any) (FaultMode, error) {
 	return p.lab.Faults.consult(method, p.target, args)
 }
 
+func (p *netVNode) logCall(method string, subject uint64, h0 int, err error) {
+	h := p.node().VerifStateHistory()
+	p.lab.mcMu.Lock()
+	p.lab.MCalls = append(p.lab.MCalls, MembershipCall{Method: method, Target: p.target, Subject: subject, H0: h0, H1: len(h), History: h, Err: err})
+	p.lab.mcMu.Unlock()
+}
+
 func (p *netVNode) ID() uint64               { return p.target }
 func (p *netVNode) Identity() *protocol.Node { return p.ident }
 
@@ -688,7 +709,9 @@ func (p *netVNode) RequestToJoin(joiner chord.VNode) (chord.VNode, []chord.VNode
 	if mode == FailBefore {
 		return nil, nil, ferr
 	}
+	h0 := len(p.node().VerifStateHistory())
 	pre, succs, err := p.node().RequestToJoin(p.wrap(joiner))
+	p.logCall("RequestToJoin", joiner.ID(), h0, err)
 	if mode == LoseResponse {
 		return nil, nil, ferr
 	}
@@ -715,7 +738,9 @@ func (p *netVNode) RequestToLeave(leaver chord.VNode) error {
 	if mode == FailBefore {
 		return ferr
 	}
+	h0 := len(p.node().VerifStateHistory())
 	err := p.node().RequestToLeave(p.wrap(leaver))
+	p.logCall("RequestToLeave", leaver.ID(), h0, err)
 	if mode == LoseResponse {
 		return ferr
 	}
